@@ -176,6 +176,14 @@ Proof. exists k1_carrier, 256, k1_items. split; [exact k1_wf|]. split; [exact k1
   split; [vm_compute; reflexivity|]. split; [apply cuts_ok_no_pre; reflexivity|].
   split; [reflexivity|]. split; vm_compute; reflexivity. Qed.
 
+Theorem any_stream_list_refuted :
+  ~ (forall c pid items, wf_carrier c -> Forall (wf_item pid) items ->
+       (exists n, concat (chunks items) = ser_unit c ++ repeatN 255 n) -> cuts_ok c items ->
+       read_pmt (packetise pid items) pid = Ok (sec_result (sec c))).
+Proof. intros H. specialize (H k1_carrier 256 k1_items k1_wf k1_items_wf).
+  assert (E: exists n, concat (chunks k1_items) = ser_unit k1_carrier ++ repeatN 255 n) by (exists 0; vm_compute; reflexivity).
+  specialize (H E (cuts_ok_no_pre _ _ eq_refl)). vm_compute in H. discriminate. Qed.
+
 (* ---------- F4: the completion predicate of the unrepaired tree is true on header-straddling proper prefixes ---------- *)
 Theorem done_orig_refuted :
   exists c k, wf_carrier c /\ k < len (ser_unit c) /\ ~ inner_end c k /\
